@@ -351,14 +351,8 @@ Definition step_enqueue (fl : flavour) (c : cfg) (now : Z) (single : bool) (es :
         let l1 := msgs s1 in
         let room :=
           if 0 <? c_max_depth c then
-            if single then
-              (* enqueueWithLimit: at most one eviction *)
-              if c_max_depth c <=? active l1 then
-                if c_drop_oldest c then
-                  match sql_victim (o_gone o) l1 with Some v => Some (remove_id v l1) | None => None end
-                else None
-              else Some l1
-            else if c_drop_oldest c then sql_make_room c (S (length l1)) (active l1 + k) (o_gone o) l1
+            (* enqueueWithLimit (k = 1, since fix 1370a7d) and EnqueueBatch: evict until the new items fit *)
+            if c_drop_oldest c then sql_make_room c (S (length l1)) (active l1 + k) (o_gone o) l1
             else if c_max_depth c <? active l1 + k then None else Some l1
           else Some l1 in
         match room with
